@@ -140,6 +140,23 @@ C_MUTANTS = [
      '    return (ssrc[0] << 24) | (usrc[1] << 8) | (usrc[2] << 16) | usrc[3];'),   # (usrc[0] << 24 is equivalent under gcc)
     ('C11', ['format_four_bytes'], 'src/cffi/cffi_opcode.py',
      '        (num >> 16) & 0xFF,', '        (num >> 16) & 0x7F,'),
+    ('C01', ['field loop'], 'src/c/_cffi_backend.c',
+     '                    byteoffset += (bitoffset >> 3);', '                    byteoffset += (bitoffset >> 2);'),
+    ('C01', ['field loop'], 'src/c/_cffi_backend.c',
+     '                    if (bits_already_occupied + fbitsize > 8 * ftype->ct_size) {',
+     '                    if (bits_already_occupied + fbitsize >= 8 * ftype->ct_size) {'),
+    ('C01', ['field loop'], 'src/c/_cffi_backend.c',
+     '        falign = (pack < falignorg) ? pack : falignorg;', '        falign = falignorg;'),
+    ('C01', ['field loop'], 'src/c/_cffi_backend.c',
+     '                do_align = PyUnicode_GetLength(fname) > 0;', '                do_align = 1;'),
+    ('C01', ['get_alignment'], 'src/c/_cffi_backend.c',
+     '        align = offsetof(struct aligncheck_ptr, y);', '        align = 4;'),
+    ('C01', ['epilogue'], 'src/c/_cffi_backend.c',
+     '    alignedsize = (byteoffsetmax + alignment - 1) & ~(alignment-1);',
+     '    alignedsize = (byteoffsetmax + alignment) & ~(alignment-1);'),
+    ('C01', ['anonymous member loop'], 'src/c/_cffi_backend.c',
+     '                                           byteoffset + cfsrc->cf_offset,',
+     '                                           cfsrc->cf_offset,'),
     ('C03', ['export table'], 'src/c/_cffi_backend.c',
      '    _cffi_to_c_i32,\n    _cffi_to_c_u32,', '    _cffi_to_c_u32,\n    _cffi_to_c_i32,'),
 ]
